@@ -110,18 +110,34 @@ Definition abort_ok (r : list nat) (m : nat) : bool :=
   | _ => false
   end.
 
+(* navigation cut at every channel call (the budgets beyond [int_bound] cut nothing: acquire_loop_k_sat), the cut line
+   executed by the device or not: the belief left behind is DUMMY or the device's mode, the device is in a registered
+   level, only the driver's own lines were sent.  This is where the ORDER fact [p_reset_first] is consumed. *)
+Definition bsound (b : option nat) (m : nat) : bool := match b with None => true | Some y => y =? m end.
+
+Definition int_bound (r : list nat) : nat := 2 * (length r * 2 + 2).
+
+Definition nav_int_ok (r : list nat) (b : option nat) (m d : nat) : bool :=
+  forallb (fun bud => forallb (fun x =>
+      match acquire_k P r b m d bud x with
+      | (b', m', seg, Interrupted) => bsound b' m' && mem m' r && no_user seg
+      | _ => true
+      end) [false; true]) (seq 0 (int_bound r)).
+
 Definition reg_ok (r : list nat) : bool :=
   mem (p_default P) r && mem (p_cfg P) r
   && forallb (fun m => abort_ok r m
                        && forallb (fun d => nav_ok r (Some m) m d && (negb (unamb P r m) || nav_ok r None m d)) r) r
-  && forallb (fun k => mem k r || lmem (r ++ [k]) (p_regs P)) (p_cands P).
+  && forallb (fun k => mem k r || lmem (r ++ [k]) (p_regs P)) (p_cands P)
+  && forallb (fun m => forallb (fun d => nav_int_ok r (Some m) m d && (negb (unamb P r m) || nav_int_ok r None m d)) r) r.
 
 Definition base : list nat := seq 0 (p_base P).
 
 Definition platform_check : bool :=
   lmem base (p_regs P) && forallb reg_ok (p_regs P)
   && forallb (fun m => mem m base && unamb P base m) (p_login P)
-  && forallb (neutral P) (p_open P).
+  && forallb (neutral P) (p_open P)
+  && p_reset_first P.
 
 (* ---------------------------------------------------------------- invariant, specification *)
 Definition belief_sound (s : state) : Prop := belief s = None \/ belief s = Some (mode s).
@@ -189,7 +205,7 @@ Lemma chk_parts :
   /\ forallb (neutral P) (p_open P) = true.
 Proof.
   unfold platform_check in Hchk. repeat rewrite andb_true_iff in Hchk.
-  destruct Hchk as [[[H1 H2] H3] H4]. repeat split; auto.
+  destruct Hchk as [[[[H1 H2] H3] H4] _]. repeat split; auto.
   - now apply lmem_In.
   - intros r Hr. rewrite forallb_forall in H2. auto.
   - rewrite forallb_forall in H3. apply H3 in H. apply andb_true_iff in H. apply mem_In. tauto.
@@ -201,11 +217,13 @@ Lemma reg_parts : forall r, In r (p_regs P) ->
   /\ (forall m, In m r -> abort_ok r m = true)
   /\ (forall m d, In m r -> In d r -> nav_ok r (Some m) m d = true)
   /\ (forall m d, In m r -> In d r -> unamb P r m = true -> nav_ok r None m d = true)
-  /\ (forall k, In k (p_cands P) -> ~ In k r -> In (r ++ [k]) (p_regs P)).
+  /\ (forall k, In k (p_cands P) -> ~ In k r -> In (r ++ [k]) (p_regs P))
+  /\ (forall m d, In m r -> In d r -> nav_int_ok r (Some m) m d = true)
+  /\ (forall m d, In m r -> In d r -> unamb P r m = true -> nav_int_ok r None m d = true).
 Proof.
   intros r Hr. destruct chk_parts as [_ [H _]]. specialize (H r Hr). unfold reg_ok in H.
-  repeat rewrite andb_true_iff in H. destruct H as [[[H1 H2] H3] H4].
-  rewrite forallb_forall in H3, H4.
+  repeat rewrite andb_true_iff in H. destruct H as [[[[H1 H2] H3] H4] H5].
+  rewrite forallb_forall in H3, H4, H5.
   repeat split.
   - now apply mem_In.
   - now apply mem_In.
@@ -218,6 +236,10 @@ Proof.
   - intros k Hk Hn. apply H4 in Hk. apply orb_true_iff in Hk. destruct Hk as [Hk|Hk].
     + apply mem_In in Hk. contradiction.
     + now apply lmem_In.
+  - intros m d Hm Hd. apply H5 in Hm. rewrite forallb_forall in Hm. apply Hm in Hd.
+    apply andb_true_iff in Hd. tauto.
+  - intros m d Hm Hd Hu. apply H5 in Hm. rewrite forallb_forall in Hm. apply Hm in Hd.
+    apply andb_true_iff in Hd. destruct Hd as [_ Hd]. rewrite Hu in Hd. simpl in Hd. exact Hd.
 Qed.
 
 (* navigation from a sound (belief, mode) pair to a registered level: arrives, belief set, only own lines *)
@@ -268,7 +290,7 @@ Theorem step_ok : forall s o s' seg res,
   Inv s' /\ op_spec s o seg res.
 Proof.
   intros s o s' seg res [Hr [Hm Hs]] Hn Hsafe Hrun.
-  destruct (reg_parts (reg s) Hr) as (Hdef & Hcfg & _ & _ & _ & Hclos).
+  destruct (reg_parts (reg s) Hr) as (Hdef & Hcfg & _ & _ & _ & Hclos & _).
   destruct o as [|ls stop|ls stop priv|d|ls priv|k|b]; simpl in Hrun, Hn.
   - (* open *)
     destruct (acquire_sound (reg s) (belief s) (mode s) (p_default P) Hr Hm Hdef Hs) as [seg1 [E1 U1]].
@@ -394,6 +416,240 @@ Theorem levels_partial : forall m0 h,
   Forall step_good (run_hist P (init P m0) h).
 Proof. intros. apply hist_ok; auto. now apply init_Inv. Qed.
 
+
+(* ---------------------------------------------------------------- interrupted operations *)
+(* a budget of two channel calls per loop turn cuts nothing *)
+Lemma acquire_loop_k_sat : forall r dest x f c b m seg bud,
+  2 * f <= bud -> snd (acquire_loop_k P r f c b m dest seg bud x) <> Interrupted.
+Proof.
+  induction f as [|f IH]; intros c b m seg bud H; [simpl; discriminate|].
+  destruct bud as [|[|bud2]]; try lia.
+  cbn [acquire_loop_k].
+  destruct (process_acquire P r b dest (matches P r m)); simpl; try discriminate.
+  - destruct (length r * 2 <? S c); simpl; [discriminate|]. apply IH. lia.
+  - destruct (length r * 2 <? S c); simpl; [discriminate|]. apply IH. lia.
+Qed.
+
+Lemma acquire_k_int : forall r b m d bud x b' m' seg,
+  In r (p_regs P) -> In m r -> In d r -> sound r b m ->
+  acquire_k P r b m d bud x = (b', m', seg, Interrupted) ->
+  (b' = None \/ b' = Some m') /\ In m' r /\ no_user seg = true.
+Proof.
+  intros r b m d bud x b' m' seg Hr Hm Hd Hs E.
+  destruct (reg_parts r Hr) as (_ & _ & _ & _ & _ & _ & I1 & I2).
+  assert (H : nav_int_ok r b m d = true) by (destruct Hs as [->|[-> Hu]]; auto).
+  assert (Hb : bud < int_bound r).
+  { destruct (Nat.lt_ge_cases bud (int_bound r)) as [|Hge]; auto. exfalso.
+    unfold acquire_k in E. destruct (mem d r); [|discriminate].
+    pose proof (acquire_loop_k_sat r d x (length r * 2 + 2) 0 b m [] bud Hge) as Hn.
+    rewrite E in Hn. now apply Hn. }
+  unfold nav_int_ok in H. rewrite forallb_forall in H.
+  assert (Hi : In bud (seq 0 (int_bound r))) by (apply in_seq; lia).
+  specialize (H bud Hi). rewrite forallb_forall in H.
+  assert (Hx : In x [false; true]) by (destruct x; simpl; auto).
+  specialize (H x Hx). rewrite E in H. repeat rewrite andb_true_iff in H. destruct H as [[A B] C].
+  split; [|split; [now apply mem_In|exact C]].
+  destruct b' as [y|]; [right; simpl in A; apply Nat.eqb_eq in A; now subst | now left].
+Qed.
+
+Lemma send_lines_k_neutral : forall k stop ls m n x m' seg,
+  ulines_neutral ls = true -> send_lines_k P k stop m ls n x = (m', seg, Interrupted) ->
+  m' = m /\ Forall (fun e => fst (fst e) = m /\ snd e = k) seg.
+Proof.
+  induction ls as [|[l f] r IH]; intros m n x m' seg H E; simpl in *; [discriminate|].
+  apply andb_true_iff in H. destruct H as [Hl Hr]. rewrite (neutral_dstep l m Hl) in E.
+  destruct n as [|n1].
+  - destruct x; inv_pair; split; auto.
+  - destruct (stop && f); [discriminate|].
+    destruct (send_lines_k P k stop m r n1 x) as [[m2 seg2] res2] eqn:E2. inv_pair.
+    destruct (IH m n1 x m' seg2 Hr E2) as [-> HF]. split; auto.
+Qed.
+
+(* the level the user lines of an operation must run in *)
+Definition req_level (s : state) (o : op) : nat :=
+  match o with
+  | OSendConfigs _ _ priv => match priv with Some p => p | None => p_cfg P end
+  | OInteractive _ (Some p) => p
+  | _ => cmd_level s
+  end.
+
+Definition seg_at (lv : nat) (seg : list entry) : Prop :=
+  Forall (fun e => is_user e = true -> fst (fst e) = lv) seg.
+
+Lemma no_user_seg_at : forall lv seg, no_user seg = true -> seg_at lv seg.
+Proof.
+  intros lv seg H. unfold seg_at. apply Forall_forall. intros e He Hu.
+  unfold no_user in H. rewrite forallb_forall in H. apply H in He. rewrite Hu in He. discriminate.
+Qed.
+
+(* after an interruption the belief may be DUMMY while the prompt is shared: the finding's region *)
+Definition st_safe (s : state) : bool :=
+  match belief s with None => unamb P (reg s) (mode s) | Some _ => true end.
+
+Lemma op_nav_to : forall s o force d,
+  In (p_default P) (reg s) -> In (p_cfg P) (reg s) -> op_nav P s o = NavTo force d ->
+  (force = false -> In d (reg s))
+  /\ (req_level s o = d \/ fst (fst (op_lines P o)) = KOpen \/ snd (op_lines P o) = []).
+Proof.
+  intros s o force d Hdef Hcfg H. unfold req_level, cmd_level.
+  destruct o as [|ls stop|ls stop priv|d0|ls priv|k|b]; simpl in *.
+  - inversion H; subst. split; [discriminate|auto].
+  - destruct (generic s); [discriminate|]. inversion H; subst. split; auto.
+  - destruct (generic s); [discriminate|]. destruct priv as [p|].
+    + destruct (mem p (reg s)) eqn:E; [|discriminate]. inversion H; subst. split; auto. intros _. now apply mem_In.
+    + inversion H; subst. split; auto.
+  - inversion H; subst. split; [discriminate|auto].
+  - destruct priv as [p|].
+    + destruct (mem p (reg s)) eqn:E; [|discriminate]. inversion H; subst. split; auto. intros _. now apply mem_In.
+    + destruct (generic s); [discriminate|]. inversion H; subst. split; auto.
+  - discriminate.
+  - discriminate.
+Qed.
+
+Lemma op_nav_none : forall s o, op_nav P s o = NoNav -> req_level s o = mode s.
+Proof.
+  intros s o H. unfold req_level, cmd_level.
+  destruct o as [|ls stop|ls stop priv|d0|ls priv|k|b]; simpl in *; try discriminate.
+  - destruct (generic s); [auto|discriminate].
+  - destruct (generic s); [discriminate|]. destruct priv as [p|]; [destruct (mem p (reg s))|]; discriminate.
+  - destruct priv as [p|]; [destruct (mem p (reg s)); discriminate|]. destruct (generic s); [auto|discriminate].
+Qed.
+
+Lemma op_lines_neutral : forall o, op_neutral o = true -> ulines_neutral (snd (op_lines P o)) = true.
+Proof.
+  destruct chk_parts as (_ & _ & _ & Hopen).
+  intros o H. destruct o as [|ls stop|ls stop priv|d0|ls priv|k|b]; simpl in *; auto.
+  - now rewrite ulines_neutral_plain.
+  - now rewrite ulines_neutral_plain.
+Qed.
+
+(* one interrupted operation from any state satisfying the invariant: the belief left behind is DUMMY or the
+   device's mode, every user line that did reach the device ran in the required level, and the invariant holds
+   again unless the state is in the finding's region (belief DUMMY at a shared prompt) *)
+Theorem int_ok : forall s o pt s' seg,
+  Inv s -> op_neutral o = true -> run_op_int P s o pt = Some (s', seg) ->
+  belief_sound s' /\ seg_at (req_level s o) seg /\ (st_safe s' = true -> Inv s').
+Proof.
+  intros s o pt s' seg [Hr [Hm Hs]] Hn E.
+  destruct (reg_parts (reg s) Hr) as (Hdef & Hcfg & _).
+  pose proof (op_lines_neutral o Hn) as Hln.
+  destruct pt as [bud x|n x]; unfold run_op_int in E.
+  - (* cut while acquiring the level *)
+    destruct (op_nav P s o) as [force d| |] eqn:N; try discriminate.
+    destruct (op_nav_to s o force d Hdef Hcfg N) as [Hf _].
+    assert (EK : exists b1 m1, acquire_k P (reg s) (belief s) (mode s) d bud x = (b1, m1, seg, Interrupted)
+                               /\ s' = mkSt b1 (generic s) (reg s) m1).
+    { destruct force.
+      - destruct (acquire_k P (reg s) (belief s) (mode s) d bud x) as [[[b1 m1] seg1] r1].
+        destruct r1; try discriminate. inversion E; subst. now exists b1, m1.
+      - unfold ensure_k in E. destruct (opt_eqb (belief s) (Some d)); [discriminate|].
+        destruct (acquire_k P (reg s) (belief s) (mode s) d bud x) as [[[b1 m1] seg1] r1].
+        destruct r1; try discriminate. inversion E; subst. now exists b1, m1. }
+    destruct EK as [b1 [m1 [EK ->]]].
+    assert (Hd : In d (reg s)).
+    { destruct (mem d (reg s)) eqn:Md; [now apply mem_In|]. unfold acquire_k in EK. rewrite Md in EK. discriminate. }
+    destruct (acquire_k_int _ _ _ _ _ _ _ _ _ Hr Hm Hd Hs EK) as (Hb & Hin & Hu).
+    split; [exact Hb|]. split; [now apply no_user_seg_at|].
+    intros Hsafe. repeat split; simpl; auto.
+    unfold st_safe in Hsafe. simpl in Hsafe.
+    destruct Hb as [Hb | Hb]; rewrite Hb in *; [right; auto | now left].
+  - (* level acquired, cut in the send loop *)
+    destruct (op_lines P o) as [[k stop] ls] eqn:L. simpl in Hln.
+    destruct (op_nav P s o) as [force d| |] eqn:N; try discriminate.
+    + destruct (op_nav_to s o force d Hdef Hcfg N) as [Hf Hreq]. rewrite L in Hreq. simpl in Hreq.
+      assert (Hd : In d (reg s)).
+      { destruct (mem d (reg s)) eqn:Md; [now apply mem_In|]. destruct force.
+        - rewrite acquire_invalid in E by (intro Hd; apply mem_In in Hd; congruence). discriminate.
+        - exact (Hf eq_refl). }
+      assert (EN : exists seg1, (if force then acquire P (reg s) (belief s) (mode s) d
+                                 else ensure P (reg s) (belief s) (mode s) d) = (Some d, d, seg1, Ok)
+                                /\ no_user seg1 = true).
+      { destruct force; [now apply acquire_sound | now apply ensure_sound]. }
+      destruct EN as [seg1 [EN U1]]. rewrite EN in E.
+      destruct (send_lines_k P k stop d ls n x) as [[m2 seg2] r2] eqn:E2.
+      destruct r2; try discriminate. inversion E; subst.
+      destruct (send_lines_k_neutral _ _ _ _ _ _ _ _ Hln E2) as [-> HF].
+      split; [now right|]. split; [|intros _; split; [exact Hr|]; split; [exact Hd|]; apply sound_at].
+      apply Forall_app. split; [now apply no_user_seg_at|].
+      destruct Hreq as [Hreq|[Hk|Hl]].
+      * rewrite Hreq. eapply Forall_impl; [|exact HF]. intros e [He _] _. exact He.
+      * subst k. eapply Forall_impl; [|exact HF]. intros e [_ He] Hu. unfold is_user in Hu. rewrite He in Hu. discriminate.
+      * subst ls. simpl in E2. discriminate.
+    + destruct (send_lines_k P k stop (mode s) ls n x) as [[m2 seg2] r2] eqn:E2.
+      destruct r2; try discriminate. inversion E; subst.
+      destruct (send_lines_k_neutral _ _ _ _ _ _ _ _ Hln E2) as [-> HF].
+      split; [apply Inv_belief_sound; repeat split; auto|].
+      split; [|intros _; repeat split; simpl; auto].
+      simpl. rewrite (op_nav_none s o N). eapply Forall_impl; [|exact HF]. intros e [He _] _. exact He.
+Qed.
+
+Lemma op_spec_int : forall s o seg lv, op_spec s o seg Interrupted -> seg_at lv seg.
+Proof.
+  intros s o seg lv H. unfold seg_at.
+  destruct o as [|ls stop|ls stop priv|d0|ls priv|k|b]; simpl in H.
+  - destruct H; discriminate.
+  - destruct H; discriminate.
+  - destruct (generic s); [destruct H; discriminate|].
+    destruct (mem _ (reg s)); destruct H; discriminate.
+  - destruct H as [_ H]. destruct (mem d0 (reg s)); [discriminate|destruct H; discriminate].
+  - destruct priv as [p|]; [destruct (mem p (reg s))|]; destruct H; discriminate.
+  - subst. constructor.
+  - subst. constructor.
+Qed.
+
+(* histories with interruptions *)
+Definition iop_safe (s : state) (io : iop) : bool :=
+  op_safe s (fst io)
+  && match snd io with
+     | Some pt => match run_op_int P s (fst io) pt with Some (s', _) => st_safe s' | None => true end
+     | None => true
+     end.
+
+Fixpoint hist_safe_i (s : state) (h : list iop) : bool :=
+  match h with
+  | [] => true
+  | io :: r => iop_safe s io && hist_safe_i (fst (fst (run_iop P s io))) r
+  end.
+
+Definition step_good_i (t : state * op * list entry * result * state) : Prop :=
+  match t with
+  | (s, o, seg, res, s') =>
+      belief_sound s' /\ (res <> Interrupted -> op_spec s o seg res) /\ (res = Interrupted -> seg_at (req_level s o) seg)
+  end.
+
+Theorem hist_i_ok : forall h s,
+  Inv s -> forallb (fun io => op_neutral (fst io)) h = true -> hist_safe_i s h = true ->
+  Forall step_good_i (run_hist_i P s h).
+Proof.
+  induction h as [|[o pt] r IH]; intros s HI Hn Hs; simpl; [constructor|].
+  simpl in Hn, Hs. apply andb_true_iff in Hn. destruct Hn as [Hn1 Hn2].
+  apply andb_true_iff in Hs. destruct Hs as [Hs1 Hs2].
+  unfold iop_safe in Hs1. simpl in Hs1. apply andb_true_iff in Hs1. destruct Hs1 as [Hs1 Hs3].
+  assert (Hplain : forall s' seg res, run_op P s o = (s', seg, res) ->
+            Inv s' /\ step_good_i (s, o, seg, res, s')).
+  { intros s' seg res E. destruct (step_ok s o s' seg res HI Hn1 Hs1 E) as [HI' Hspec].
+    split; auto. split; [now apply Inv_belief_sound|]. split; auto.
+    intros ->. eapply op_spec_int; eauto. }
+  unfold run_iop in *. simpl in *.
+  destruct pt as [pt|].
+  - destruct (run_op_int P s o pt) as [[s' seg]|] eqn:E.
+    + destruct (int_ok s o pt s' seg HI Hn1 E) as (Hb & Hseg & HI').
+      simpl in Hs2. constructor; [|apply IH; auto].
+      split; auto. split; [congruence|auto].
+    + destruct (run_op P s o) as [[s' seg] res] eqn:E2. simpl in Hs2.
+      destruct (Hplain s' seg res eq_refl) as [HI' Hg]. constructor; auto.
+  - destruct (run_op P s o) as [[s' seg] res] eqn:E2. simpl in Hs2.
+    destruct (Hplain s' seg res eq_refl) as [HI' Hg]. constructor; auto.
+Qed.
+
+Theorem belief_sound_i : forall m0 h,
+  In m0 (p_login P) -> forallb (fun io => op_neutral (fst io)) h = true -> hist_safe_i (init P m0) h = true ->
+  Forall (fun t => belief_sound (snd t)) (run_hist_i P (init P m0) h).
+Proof.
+  intros m0 h H1 H2 H3. pose proof (hist_i_ok h (init P m0) (init_Inv m0 H1) H2 H3) as H.
+  eapply Forall_impl; [|exact H]. intros [[[[s o] seg] res] s'] [Hb _]. exact Hb.
+Qed.
+
 End Platform.
 
 (* ---------------------------------------------------------------- fuel *)
@@ -445,7 +701,7 @@ Definition xr_like : platform :=
     [mkLevel None 0 0 0 false; mkLevel (Some 0) 1 2 1 false; mkLevel (Some 0) 3 2 1 false]
     3 0 1 (AbSend 6 0) [4; 5]
     [(0, 1, 1); (0, 3, 2); (1, 2, 0); (1, 6, 0); (2, 2, 0); (2, 6, 0)]
-    [0] [] [[0; 1; 2]].
+    [0] [] [[0; 1; 2]] true.
 
 Example xr_like_checked : platform_check xr_like = true.
 Proof. vm_compute. reflexivity. Qed.
@@ -495,3 +751,94 @@ Proof. vm_compute. reflexivity. Qed.
 (* the invariant is satisfiable with the belief unknown (login) and with the belief set *)
 Example Inv_at_login : Inv xr_like (init xr_like 0).
 Proof. apply init_Inv; [exact xr_like_checked | now left]. Qed.
+
+(* ---------------------------------------------------------------- interrupted histories: corollaries for props/C03.v *)
+Theorem belief_sound_hist_i : forall P, platform_check P = true -> forall m0 h,
+  In m0 (p_login P) -> forallb (fun io => op_neutral P (fst io)) h = true -> hist_safe_i P (init P m0) h = true ->
+  Forall (fun t => belief_sound (snd t)) (run_hist_i P (init P m0) h).
+Proof. intros P Hc. exact (belief_sound_i P Hc). Qed.
+
+Theorem levels_hist_i : forall P, platform_check P = true -> forall m0 h,
+  In m0 (p_login P) -> forallb (fun io => op_neutral P (fst io)) h = true -> hist_safe_i P (init P m0) h = true ->
+  Forall (step_good_i P) (run_hist_i P (init P m0) h).
+Proof. intros P Hc m0 h H1 H2 H3. apply hist_i_ok; auto. now apply init_Inv. Qed.
+
+(* a history without interruption points is a plain history *)
+Lemma run_hist_i_plain : forall P h s, run_hist_i P s (map (fun o => (o, None)) h) = run_hist P s h.
+Proof.
+  induction h as [|o r IH]; intros s; simpl; auto.
+  unfold run_iop. simpl. destruct (run_op P s o) as [[s' seg] res]. now rewrite IH.
+Qed.
+
+(* the ORDER fact is what the statement rests on: the same table with the reset AFTER the escalate / deescalate step
+   fails the check, and the belief is wrong after an interruption *)
+Definition set_reset_first (P : platform) (b : bool) : platform :=
+  mkPlatform (p_levels P) (p_base P) (p_default P) (p_cfg P) (p_abort P) (p_open P) (p_dev P) (p_login P)
+             (p_cands P) (p_regs P) b.
+
+Definition xr_like_after : platform := set_reset_first xr_like false.
+
+(* open . send_configs cut while "configure terminal" is in flight, the device having executed it . send_command *)
+Definition xr_cut_witness : list iop :=
+  [(OOpen, None); (OSendConfigs [(100, false)] false None, Some (INav 1 true)); (OSendCommands [(101, false)] false, None)].
+
+Example xr_cut_witness_premises :
+  forallb (fun io => op_neutral xr_like_after (fst io)) xr_cut_witness = true
+  /\ hist_safe_i xr_like_after (init xr_like_after 0) xr_cut_witness = true.
+Proof. split; vm_compute; reflexivity. Qed.
+
+(* reset first (the code as it is): belief DUMMY, device in configuration; the next command runs in privilege_exec
+   (on this table the cut leaves the belief DUMMY at a shared prompt, i.e. inside the finding's region; the
+   command level is unambiguous, so the command is not affected) *)
+Example xr_cut_reset_first :
+  map (fun t => match t with (_, _, seg, res, s') => (seg, res, belief s', mode s') end)
+      (run_hist_i xr_like (init xr_like 0) xr_cut_witness)
+  = [([(0, 4, KOpen); (0, 5, KOpen)], Ok, Some 0, 0);
+     ([(0, 1, KNav)], Interrupted, None, 1);
+     ([(1, 2, KNav); (0, 101, KUser)], Ok, Some 0, 0)].
+Proof. vm_compute. reflexivity. Qed.
+
+(* reset after: the driver still believes privilege_exec, and the next command runs in configuration *)
+Example xr_cut_reset_after :
+  map (fun t => match t with (_, _, seg, res, s') => (seg, res, belief s', mode s') end)
+      (run_hist_i xr_like_after (init xr_like_after 0) xr_cut_witness)
+  = [([(0, 4, KOpen); (0, 5, KOpen)], Ok, Some 0, 0);
+     ([(0, 1, KNav)], Interrupted, Some 0, 1);
+     ([(1, 101, KUser)], Ok, Some 0, 1)].
+Proof. vm_compute. reflexivity. Qed.
+
+(* the interrupted-history statement for tables that pass the check when the order fact is ignored *)
+Definition C03_int_without_order : Prop :=
+  forall P, platform_check (set_reset_first P true) = true -> forall m0 h,
+    In m0 (p_login P) -> forallb (fun io => op_neutral P (fst io)) h = true -> hist_safe_i P (init P m0) h = true ->
+    Forall (fun t => belief_sound (snd t)) (run_hist_i P (init P m0) h).
+
+Theorem int_without_order_refuted : ~ C03_int_without_order.
+Proof.
+  intro H. destruct xr_cut_witness_premises as (N & S).
+  specialize (H xr_like_after xr_like_checked 0 xr_cut_witness (or_introl eq_refl) N S).
+  pose proof (proj1 (Forall_nth _ _) H 1 (init xr_like 0, OOpen, [], Ok, init xr_like 0)) as H1.
+  vm_compute in H1. specialize (H1 (le_S _ _ (le_n _))). destruct H1 as [H1|H1]; discriminate H1.
+Qed.
+
+Example xr_like_after_fails_check : platform_check xr_like_after = false.
+Proof. vm_compute. reflexivity. Qed.
+
+(* the premises of the interrupted-history theorem are satisfiable by a non-trivial history: cuts in the navigation
+   (line executed or not), in the send loop, and operations after each of them *)
+Definition xr_int_history : list iop :=
+  [(OOpen, None); (OSendConfigs [(100, false); (101, false)] false None, Some (ILine 1 true));
+   (OSendCommands [(102, false)] false, Some (INav 1 true)); (OSendCommands [(103, false)] false, None);
+   (OAcquire 1, Some (INav 1 false)); (OSendConfigs [(104, false)] false None, None)].
+
+Example xr_int_history_premises :
+  forallb (fun io => op_neutral xr_like (fst io)) xr_int_history = true
+  /\ hist_safe_i xr_like (init xr_like 0) xr_int_history = true.
+Proof. split; vm_compute; reflexivity. Qed.
+
+Example xr_int_history_runs :
+  map (fun t => match t with (_, _, seg, res, s') => (user_entries seg, res, belief s', mode s') end)
+      (run_hist_i xr_like (init xr_like 0) xr_int_history)
+  = [([], Ok, Some 0, 0); ([(1, 100); (1, 101)], Interrupted, Some 1, 1); ([], Interrupted, None, 0);
+     ([(0, 103)], Ok, Some 0, 0); ([], Interrupted, None, 0); ([(1, 104)], Ok, Some 1, 1)].
+Proof. vm_compute. reflexivity. Qed.
